@@ -116,11 +116,26 @@ def run_faithful_independent(case, ctx):
     P = _setup(case, ctx)
     if P is None:
         return
+    via_tournament = bool(case.get("via_tournament"))
+    if via_tournament:
+        # "earlier clones and tournament rounds ... every pair of (clone, clone)": the copies come out of TournamentSelection -
+        # the returned elite and the first member of the new generation are two copies of the best agent (= P)
+        P.fitness = [1.0]
     before = T.snapshot(P)
     with ctx.promised("C01/clone", algo=algo):
-        C1 = P.clone()
-        C2 = P.clone() if case["sibling"] else None
-        G = C1.clone() if case.get("grand") else None
+        if via_tournament:
+            from agilerl.hpo.tournament import TournamentSelection
+
+            rival = P.clone(index=P.index + 1)
+            rival.fitness = [0.0]
+            np.random.seed(case["obs_seed"])
+            C1, new_pop = TournamentSelection(2, True, 2, 1).select([P, rival])
+            C2, G = new_pop[0], None
+            ctx.label("family-from-tournament(elite, first member)")
+        else:
+            C1 = P.clone()
+            C2 = P.clone() if case["sibling"] else None
+            G = C1.clone() if case.get("grand") else None
     d = T.diff(before, T.snapshot(P))
     if d:
         ctx.fail(f"C01/clone_changed_parent/{_norm(d[0])}", f"clone() changed the parent: {d[0]}", diffs=d[:5])
@@ -377,7 +392,7 @@ def fi_strategy(draw, tier):
             "history": history,
             "sibling": draw(st.booleans()), "grand": draw(st.booleans()),
             "who": draw(st.sampled_from(["parent", "clone", "sibling", "grandclone"])),
-            "program": list(program), "obs_seed": draw(st.integers(0, 999))}
+            "program": list(program), "obs_seed": draw(st.integers(0, 999)), "via_tournament": draw(st.integers(0, 4)) == 0}
 
 
 @st.composite
